@@ -843,8 +843,10 @@ func (e *vC05Exec) recover(point string, step int, before, after []vRefRec, hwBe
 			return obs
 		}
 		prevE, prevO = eo[0], eo[1]
-		if eo[1] > obs.newest+1 {
-			bad("epoch-beyond-log", fmt.Sprintf("epoch cache %v has an entry that starts beyond the log end %d", obs.cache, obs.newest))
+		if eo[1] > obs.newest {
+			// commitlog.New drops every epoch that starts at or after the log end: an epoch of which the log
+			// holds no message is not part of a history that "matches the messages present"
+			bad("epoch-beyond-log", fmt.Sprintf("the recovered epoch history %v has an entry that starts after the last message (offset %d): an epoch no message belongs to", obs.cache, obs.newest))
 			return obs
 		}
 	}
